@@ -107,6 +107,10 @@ where
     #[inline(always)]
     fn progress_and_get_begin_idx(&self, number_to_fetch: usize) -> Option<usize> {
         let begin_idx = self.counter().fetch_and_add(number_to_fetch);
+        if begin_idx == usize::MAX {
+            // the counter is saturated: this is not a position but the end of the iteration
+            return None;
+        }
 
         loop {
             let yielded_count = self.yielded_counter.current();
@@ -127,6 +131,11 @@ where
     }
 
     fn get(&self, item_idx: usize) -> Option<T> {
+        if item_idx == usize::MAX {
+            // the counter is saturated: this is not a position but the end of the iteration
+            return None;
+        }
+
         loop {
             let yielded_count = self.yielded_counter.current();
             match item_idx.cmp(&yielded_count) {
@@ -166,7 +175,7 @@ where
         self.progress_and_get_begin_idx(n).and_then(|begin_idx| {
             // SAFETY: no other thread has the valid condition to iterate, they are waiting
             let iter = unsafe { self.mut_iter() };
-            let end_idx = begin_idx + n;
+            let end_idx = begin_idx.saturating_add(n);
             let guard = self.complete_on_unwind();
             let buffer = (begin_idx..end_idx)
                 .map(|_| iter.next())
@@ -270,14 +279,13 @@ where
 
     #[inline(always)]
     fn try_get_len(&self) -> Option<usize> {
-        match self.completed.load(atomic::Ordering::SeqCst) {
+        let current = <Self as AtomicIter<_>>::counter(self).current();
+        // a saturated counter hands out no more positions: every later pull observes the end
+        match self.completed.load(atomic::Ordering::SeqCst) || current == usize::MAX {
             true => Some(0),
-            false => self.initial_len.map(|initial_len| {
-                let current = <Self as AtomicIter<_>>::counter(self).current();
-                match current.cmp(&initial_len) {
-                    std::cmp::Ordering::Less => initial_len - current,
-                    _ => 0,
-                }
+            false => self.initial_len.map(|initial_len| match current.cmp(&initial_len) {
+                std::cmp::Ordering::Less => initial_len - current,
+                _ => 0,
             }),
         }
     }
